@@ -34,6 +34,10 @@ def tables(portf, op, res, prices=None):
         t['summary_value'] = fnum(out['summary'].loc['value', 'Values'])
     except Exception:
         t['summary_value'] = None
+    try:
+        t['dispatch_index'] = [_inst(x) for x in out['dispatch'].index]       # the time points the rows of the table are labelled with
+    except Exception:
+        t['dispatch_index'] = None
     return t
 
 
@@ -195,6 +199,16 @@ def probe_portfolio(spec):
         try:
             portf2 = mk_portfolio(spec)
             tg2 = mk_grid(spec['grid'])
+            if opts.get('split_warmup_shift'):
+                # rolling use: the same portfolio object was set up on the neighbouring horizon before
+                try:
+                    g0 = dict(spec['grid'])
+                    d0 = (pd.Timestamp(g0['end']) - pd.Timestamp(g0['start'])) * int(opts['split_warmup_shift'])
+                    g0['start'] = str(pd.Timestamp(g0['start']) + d0)
+                    g0['end'] = str(pd.Timestamp(g0['end']) + d0)
+                    portf2.setup_optim_problem(mk_prices(spec), mk_grid(g0))
+                except Exception as e:
+                    o['split_warmup_error'] = repr(e)[:200]
             ops = portf2.setup_split_optim_problem(mk_prices(spec), tg2, interval_size=opts['split'], **skw)
         except Exception as e:
             o['split'] = {'setup_error': repr(e)[:300]}
